@@ -358,6 +358,9 @@ def search_extra(mode):
     for b in (1e308, 1.5e308, 8.99e307, 6.1e307, -1e308, -1.5e308, -8.99e307, 1.7976931348623157e308, -1.7976931348623157e308, 5e-324):
         ps += [ge_p(b), gt_p(b), le_p(b), lt_p(b)]
     ps += [all_p(ge_p(1e308)), all_p(le_p(-1e308)), any_p(gt_p(1.5e308))]
+    from predicate.standard_predicates import eq_true_p, eq_false_p
+    from predicate import optimize as _opt
+    ps += [eq_true_p, eq_false_p, eq_p(True), eq_p(False), PP.is_not_empty_p, _opt(~PP.is_empty_p), all_p(PP.is_not_empty_p), all_p(eq_true_p)]
     if mode == "false":
         ps += [is_not_none_p | is_truthy_p, ne_p("a") | PP.is_empty_p, is_not_none_p | ge_p(3), ne_p(4) | is_truthy_p, is_truthy_p | is_not_none_p]
     else:
